@@ -414,6 +414,13 @@ def _corpus(ctx):
         if fn.endswith(".json"):
             rec = json.load(open(os.path.join(d, fn)))
             cases += rec.get("cases", [rec] if "kills" in rec else [])
+    for c in cases:   # reference sessions first (one per distinct configuration), then the replays in parallel
+        key = json.dumps(c["cfg"], sort_keys=True)
+        if key not in _SESS:
+            try:
+                _SESS[key] = _run_session("c" + hashlib.sha1(key.encode()).hexdigest()[:8], c["cfg"], [])
+            except Infra:
+                pass
     for case, r in _pool().map(lambda c: (c, oracle(c)), cases):
         ctx.case(dict(corpus=True, **case))
         ctx.stat("corpus")
